@@ -421,6 +421,8 @@ import (
 
 type zzResp struct{ emptypb.Empty }
 
+var zzSink int
+
 func zzChannel(h func(ctx context.Context) (interface{}, error)) *Channel {
 	ch := &Channel{}
 	ch.RegisterService(&grpc.ServiceDesc{
@@ -469,14 +471,16 @@ func TestZZGovcReplay(t *testing.T) {
 			}
 		}
 	case "cancel-race":
-		// The call is cancelled after the response message has reached the caller but
-		// before the server goroutine has delivered its trailers (forced with a cloner
-		// that cancels while copying the response and lets the server goroutine
-		// finish). The caller must get either the complete result (response AND
-		// trailers) or the Canceled status - never success with the trailers missing,
-		// and never io.EOF.
-		defer runtime.GOMAXPROCS(runtime.GOMAXPROCS(1))
-		for i := 0; i < 400; i++ {
+		// Schedules, not inputs: the caller's context is cancelled at an instant that
+		// falls between two frames of the reply while the client loop is not parked.
+		// (a) a cloner cancels while the client copies the response: the server
+		// goroutine may then abandon the trailers frame and close the channel, and the
+		// client's select picks the closed channel: success without trailers.
+		// (b) a concurrent goroutine cancels after a varying delay: the server
+		// goroutine abandons the data frame after the headers frame was taken: the
+		// call returns a bare io.EOF. Both need the race to fall into a window of a
+		// few instructions, hence the loop (about 1 in 10^4 runs shows it).
+		for i := 0; i < 400000; i++ {
 			ctx, cancel := context.WithCancel(context.Background())
 			ch := zzChannel(func(hctx context.Context) (interface{}, error) {
 				grpc.SetTrailer(hctx, metadata.Pairs("k", "v"))
@@ -485,9 +489,7 @@ func TestZZGovcReplay(t *testing.T) {
 			ch.WithCloner(CopyFunc(func(out, in interface{}) error {
 				if _, isResp := out.(*zzResp); isResp {
 					cancel()
-					for j := 0; j < 20; j++ {
-						runtime.Gosched()
-					}
+					runtime.Gosched()
 				}
 				return nil
 			}))
@@ -498,7 +500,27 @@ func TestZZGovcReplay(t *testing.T) {
 				t.Fatalf("GOVC-REPLAY: VIOLATED run %%d: unary call returned a bare io.EOF", i)
 			}
 			if err == nil && len(tr["k"]) == 0 {
-				t.Fatalf("GOVC-REPLAY: VIOLATED run %%d: call cancelled while the server was finishing reported success but the handler's trailers are missing (%%v)", i, tr)
+				t.Fatalf("GOVC-REPLAY: VIOLATED run %%d: call cancelled while the client was copying the response reported success but the handler's trailers are missing (%%v)", i, tr)
+			}
+		}
+		for i := 0; i < 600000; i++ {
+			ctx, cancel := context.WithCancel(context.Background())
+			ch := zzChannel(func(hctx context.Context) (interface{}, error) {
+				grpc.SetHeader(hctx, metadata.Pairs("h", "v"))
+				return &emptypb.Empty{}, nil
+			})
+			n := i %% 3000
+			go func() {
+				x := 0
+				for j := 0; j < n; j++ {
+					x += j
+				}
+				zzSink = x
+				cancel()
+			}()
+			err := ch.Invoke(ctx, "/svc/M", &emptypb.Empty{}, &emptypb.Empty{})
+			if err == io.EOF {
+				t.Fatalf("GOVC-REPLAY: VIOLATED run %%d: call cancelled between the headers frame and the response frame returned a bare io.EOF", i)
 			}
 		}
 	}
